@@ -282,6 +282,10 @@ package cache
 //@   assert at call (*middleware/cache.Store).RecordFailure#1: lastret("middleware/cache.cacheableResolutionFailure") && arg1 == lastret("(*middleware/cache.ResponseWriter).recursionWorkFailure") || arg1 == res
 //@   assert at call (*middleware/cache.Store).RecordFailure#1: lastret("middleware/cache.cacheableResolutionFailure")
 //@   assert at call (*middleware/cache.Store).RecordFailure#2: lastret("middleware/cache.cacheableResolutionFailure")
+//@   note C02: shared denial state (aggressive proofs, NXDOMAIN cuts) is admitted only for a locally validated, aggressive-eligible proof, for a request without ECS scope, without CD on request or response, and not from a request tree that bypasses shared denial
+//@   assert at call middleware.ValidatedNegativeProofForResponse#1: !prefixValid(w.clientScope) && !w.requestHasECS && !w.requestTreeBypassesSharedDenial && !w.requestCD && !res.CheckingDisabled && arg1 == res
+//@   assert at call (*middleware/cache.Store).RecordDenialProof#1: calls("middleware.ValidatedNegativeProofForResponse") == 1 && lastret("middleware.ValidatedNegativeProofForResponse", 1) && lastret("middleware.ValidatedNegativeProofForResponse").Aggressive && arg1 == lastret("middleware.ValidatedNegativeProofForResponse").Proof && arg1 != nil && arg2 == lastret("middleware.ValidatedNegativeProofForResponse").Zone
+//@   assert at call (*middleware/cache.Store).RecordNXDomainCut#1: calls("(*middleware/cache.Store).RecordDenialProof") == 1 && arg1 == lastret("middleware.ValidatedNegativeProofForResponse").Proof && arg2 == lastret("middleware.ValidatedNegativeProofForResponse").Subject && arg3 == lastret("middleware.ValidatedNegativeProofForResponse").Zone
 //@
 //@ # ---- C07: only records owned by the question name (plus DNAMEs and their signatures) are offered to the cache
 //@ pred cacheKeep(qname string, r dns.RR) := hdrOf(r).Rrtype == dns.TypeDNAME || foldEq(qname, hdrOf(r).Name) || (dyntype(r, *dns.RRSIG) && as(r, *dns.RRSIG).TypeCovered == dns.TypeDNAME)
@@ -320,3 +324,12 @@ package cache
 //@   assert at return#5: !result1.AuthenticatedData ==> calls("internal/wire.ClearAD") >= 1
 //@   assert at call internal/wire.ClearAD#1: arg0 == body
 //@   assert at call internal/wire.ClearAD#2: arg0 == body
+//@
+//@ # ---- C02 / C03: a wire-path NXDOMAIN-cut hit is verified: the 64-bit index probe is followed by a comparison of the
+//@ # candidate suffix with the entry's denied name, the class, servability and freshness
+//@ func (*nxDomainCutCache).lookupWire$1
+//@   abstract
+//@   nosafety all pre
+//@   assert at call internal/cache.WireNameEqualsPresentation#1: arg0 == candidate && arg1 == entry.deniedName
+//@   assert at call internal/cache.KeyWire#1: arg0 == candidate && arg2 == qclass
+//@   assert at return#3: !result && lastret("internal/cache.KeyWire", 1) && entry != nil && lastret("internal/cache.WireNameEqualsPresentation") && lastret("(time.Time).Before")
